@@ -658,6 +658,28 @@ func evalTri(e ast.Expr, leaf func(ast.Expr) tri) tri {
 			}
 			return triUnknown
 		}
+		// a comparison the valuation does not know may be known in its complementary spelling: v >= k is !(v < k)
+		var flip token.Token
+		switch x.Op {
+		case token.EQL:
+			flip = token.NEQ
+		case token.NEQ:
+			flip = token.EQL
+		case token.LSS:
+			flip = token.GEQ
+		case token.GEQ:
+			flip = token.LSS
+		case token.GTR:
+			flip = token.LEQ
+		case token.LEQ:
+			flip = token.GTR
+		}
+		if flip != token.ILLEGAL {
+			if t := leaf(e); t != triUnknown {
+				return t
+			}
+			return triNot(leaf(&ast.BinaryExpr{X: x.X, OpPos: x.OpPos, Op: flip, Y: x.Y}))
+		}
 	}
 	return leaf(e)
 }
